@@ -16,8 +16,8 @@ type Ptr struct {
 	// symbolic element pointer: element (base+sym) of array cell arr
 	arr  *Cell
 	base int
-	sym  *Term // BV64 index relative to base; nil if concrete
-	n    int   // number of addressable elements from base (bound already checked)
+	sym  *Term         // BV64 index relative to base; nil if concrete
+	n    int           // number of addressable elements from base (bound already checked)
 	fn   *ssa.Function // pointer-to-function value? unused
 }
 
